@@ -193,6 +193,8 @@ ADDENDA = {
            "client lets go of the response",
     "C08": "some Requests are re-sent through a second client with another compression set and possibly another protocol; some compression "
            "constructors are nil; instrumented (de)compressors report any use between Put and the next Get",
+    "C09": "hostile peers also send a unary request whose Content-Length fits the limit while the body is far larger (what a handler sees "
+           "behind a body-rewriting middleware); clients also get hand-built Responses whose ContentLength is zero",
     "C11": "metadata under well-known HTTP field names the protocols do not use (Content-Language, Content-Location, Allow, Link, Etag, "
            "Server-Timing); unary Connect error bodies over the client's read limit or undecodable (the metadata must survive); "
            "stream handlers whose first response the codec refuses and that end with their error (nothing sent: the metadata must still arrive)",
